@@ -126,7 +126,13 @@ fn obs_clean(d: &Decision) -> Result<bool, String> {
             format!(" to=\"{v}\"")
         }
     };
-    let src = format!("a();\n<tl{attr}>\nPROBE();\n</tl>\nb();\n");
+    // decoys: same tag name and the same attribute *values* under other attribute names, before and
+    // after the probe - a decision must depend on nothing but the element itself
+    let decoy = match &d.to {
+        Some(Some(v)) => format!("<tl until=\"{v}\">\nDECOY();\n</tl>\n"),
+        _ => "<tl until=\"2000-01-01 00:00:00\">\nDECOY();\n</tl>\n".to_string(),
+    };
+    let src = format!("a();\n{decoy}<tl{attr}>\nPROBE();\n</tl>\n{decoy}b();\n");
     let cfg = Cfg {
         now: d.now.clone(),
         off: d.off.clone(),
@@ -135,7 +141,10 @@ fn obs_clean(d: &Decision) -> Result<bool, String> {
     match run_clean(&src, "<", ">", &cfg) {
         Err(p) => Err(format!("panic {}", p.site)),
         Ok(out) => {
-            let removed = !out.contains("PROBE") && !out.contains("<tl") && !out.contains("</tl>");
+            if out.matches("DECOY").count() != 2 || out.matches("<tl until").count() != 2 {
+                return Err(format!("an element without `to` next to the probe was touched: {out:?}"));
+            }
+            let removed = !out.contains("PROBE") && !out.contains("<tl to") && !out.contains("<tl>") && out.matches("</tl>").count() == 2;
             let untouched = out == src;
             if removed == untouched {
                 return Err(format!("probe neither removed nor untouched: {out:?}"));
@@ -154,6 +163,9 @@ pub fn check(d: &Decision) -> Option<(String, String)> {
                     format!("panic@{}", panic_site_key(e.trim_start_matches("panic "))),
                     format!("{name}: {e}"),
                 ))
+            }
+            Err(e) if e.contains("next to the probe") => {
+                return Some(("neighbour-element-affected".into(), format!("{name}: {e}")))
             }
             Err(e) => return Some(("probe-inconclusive".into(), format!("{name}: {e}"))),
             Ok(got) if got != want => {
@@ -290,7 +302,62 @@ pub fn run(r: &Report) {
     );
     r.expect_count("unparseable offsets x to", expected, counted);
     if !r.stopped() {
+        duplicate_to(r);
+    }
+    if !r.stopped() {
         monotonicity(r, &offs);
+    }
+    if !r.stopped() && std::env::var("MC_CHILD").is_err() {
+        // the decision must not depend on the process time zone: repeat the whole grid in child
+        // processes running under other zones
+        for tz in ["Asia/Tokyo", "America/Los_Angeles", "Pacific/Chatham"] {
+            crate::child_pass(r, "C05", tz);
+        }
+    }
+}
+
+/// Several `to` attributes: the element's `to` attribute is the first one (assumption recorded
+/// in the evidence; the subject and HTML agree on it).
+fn duplicate_to(r: &Report) {
+    r.assume("an element with several `to` / `name` attributes is decided by the first one");
+    let mut l = r.local();
+    let cfg = Cfg::standard();
+    let rows: &[(&str, bool)] = &[
+        ("to=\"2000-01-01 00:00:00\" to=\"2999-01-01 00:00:00\"", true),
+        ("to=\"2999-01-01 00:00:00\" to=\"2000-01-01 00:00:00\"", false),
+        ("to to=\"2000-01-01 00:00:00\"", false),
+        ("to=\"never\" to=\"2000-01-01 00:00:00\"", false),
+        ("to=\"2000-01-01 00:00:00\" to", true),
+    ];
+    for (attrs, want) in rows {
+        let src = format!("a();\n<tl {attrs}>\nPROBE();\n</tl>\nb();\n");
+        l.eval();
+        l.transition(1);
+        let h = hash64(&[src.as_bytes()]);
+        l.state(h);
+        l.nontrivial(h);
+        l.trace_validated(1);
+        l.class("duplicate-to");
+        let got = match run_clean(&src, "<", ">", &cfg) {
+            Ok(o) => !o.contains("PROBE"),
+            Err(p) => {
+                l.violation(Violation {
+                    prop: "C05".into(),
+                    class: format!("panic@{}", panic_site_key(&p.site)),
+                    case: json!({"engine": "time-dup", "src": src, "want": want}),
+                    detail: format!("clean panicked: {}", p.site),
+                });
+                continue;
+            }
+        };
+        if got != *want {
+            l.violation(Violation {
+                prop: "C05".into(),
+                class: "duplicate-to-not-first".into(),
+                case: json!({"engine": "time-dup", "src": src, "want": want}),
+                detail: format!("tag <tl {attrs}>: removed={got}, expected {want} (the first `to` attribute decides)"),
+            });
+        }
     }
 }
 
@@ -421,7 +488,21 @@ fn check_mono(case: &Value) -> Option<(String, String)> {
 }
 
 pub fn replay(case: &Value) -> Vec<Violation> {
-    let res = if case["engine"] == "time-mono" {
+    let res = if case["engine"] == "time-dup" {
+        let src = case["src"].as_str().unwrap_or("");
+        let want = case["want"].as_bool().unwrap_or(false);
+        match run_clean(src, "<", ">", &Cfg::standard()) {
+            Ok(o) if (!o.contains("PROBE")) != want => Some((
+                "duplicate-to-not-first".to_string(),
+                format!("removed={}, expected {want} (the first `to` attribute decides)", !want),
+            )),
+            Ok(_) => None,
+            Err(p) => Some((
+                format!("panic@{}", panic_site_key(&p.site)),
+                format!("clean panicked: {}", p.site),
+            )),
+        }
+    } else if case["engine"] == "time-mono" {
         check_mono(case)
     } else {
         Decision::from_json(case).and_then(|d| check(&d))
